@@ -227,3 +227,54 @@ Theorem C09_owner_is_live : forall fa s t, reach fa s -> owner s = Some t ->
   In t (held s) \/ phase_of s t = FastYield \/ exists f, phase_of s t = Waiting f /\ futs s f = FSet.
 Proof. exact lock_owner_is_live. Qed.
 Print Assumptions C09_owner_is_live.
+
+(* ---- F53: the cancellation check of acquire() comes first.  LockEntry.estep extends the machine with acquire() calls
+   made from an already effectively cancelled scope: the call sits in checkpoint_if_cancelled() (spin) until the
+   cancellation is delivered (SpinCancel) or the check returns after its yield because the cancelled scope stopped being
+   visible (SpinReturn, F46); other tasks act in between.  pinned = false is HEAD, pinned = true the order before the
+   fix (test, check, take).  `ereach fa s` = s is reachable by LockEntry.estep false. ---- *)
+From AV Require Import LockEntry LockEntryThms.
+
+Theorem C09_entry_mutex : forall fa s,
+  ereach fa s ->
+  (forall t, In t (held (lock s)) -> owner (lock s) = Some t) /\ length (held (lock s)) <= 1.
+Proof. exact entry_mutex. Qed.
+Print Assumptions C09_entry_mutex.
+
+Theorem C09_entry_cancelled_refused : forall s t,
+  spin s t = false -> phase_of (lock s) t = Idle ->
+  let s1 := fst (estep false s (EnterCancelled t)) in
+  snd (estep false s (EnterCancelled t)) = RBlocked /\ lock s1 = lock s /\ spin s1 t = true /\
+  estep false s1 (SpinCancel t) = (emk (lock s) (upd (spin s1) t false) (upd (committed s1) t false), RCancelled).
+Proof. exact entry_cancelled_refused. Qed.
+Print Assumptions C09_entry_cancelled_refused.
+
+Theorem C09_no_step_between_test_and_take : forall fa s t,
+  ereach fa s -> spin s t = true ->
+  estep false s (SpinReturn t) =
+  (emk (fst (Lock.step (lock s) (AcqBegin t))) (upd (spin s) t false) (upd (committed s) t false),
+   snd (Lock.step (lock s) (AcqBegin t))).
+Proof. exact no_step_between_test_and_take. Qed.
+Print Assumptions C09_no_step_between_test_and_take.
+
+Theorem C09_check_then_take_across_yield_refuted_pinned : let s := final (estep true) (einit true) f53_ops in
+  held (lock s) = [1; 2] /\ owner (lock s) = Some 1 /\
+  snd (estep true (final (estep true) (einit true) [EnterCancelled 1]) (L (AcqNowait 2))) = RDone /\
+  snd (estep true (final (estep true) (einit true) [EnterCancelled 1; L (AcqNowait 2)]) (SpinReturn 1)) = RDone /\
+  ~ length (held (lock s)) <= 1.
+Proof. exact check_then_take_across_yield_refuted_pinned. Qed.
+Print Assumptions C09_check_then_take_across_yield_refuted_pinned.
+
+(* on the regenerated code: apart from binding `task`, the check is the first statement of the entry segment and
+   occurs nowhere else (LockImp.ckif_first), so the segment that tests and takes is entered only after the one
+   possible yield; run from a cancelled scope it ends at the check, for every state *)
+Theorem C09_tie_acquire_entry_check_first : ckif_first acquire_entry = true.
+Proof. exact acquire_entry_check_first. Qed.
+Print Assumptions C09_tie_acquire_entry_check_first.
+
+Theorem C09_tie_cancelled_entry_noeffect : forall s t,
+  exists e, exec acquire_entry t env_entry_cancelled (core s) = (e, core s, OCancelled) /\
+            e_enq e = [] /\ e_rel e = false.
+Proof. exact cancelled_entry_noeffect. Qed.
+Print Assumptions C09_tie_cancelled_entry_noeffect.
+
